@@ -12,7 +12,9 @@ States == {"open", "begun", "sender", "receiver", "midxfer", "closing"}
 Raw == {"size0", "size3", "size4", "size7", "sizeHuge", "sizeOverMax", "sizeShort", "sizeLong", "doff0", "doff1", "doff3", "doff255", "type2", "type255",
         "garbage", "nest1300", "saslBody", "truncPerf"}
 Proto == {"xferUnattached", "xferBeyondCredit", "xferBeyondWindow", "dispHuge", "dispReversed", "dispUnknown", "flowUnattached", "dupAttach", "attachHandleInUse",
-          "frameUnmappedCh", "beginAgain", "dupAttachAccepted", "endUnmapped", "openAgain", "xferToSender", "detachUnattached", "flowBadRole"}
+          "frameUnmappedCh", "beginAgain", "dupAttachAccepted", "endUnmapped", "openAgain", "xferToSender", "detachUnattached", "flowBadRole",
+          \* channel numbers above the channel-max both opens agreed on (10): a session the peer starts there, and the answer to a begin of the endpoint
+          "beginChHigh", "beginChMax", "beginReplyChHigh"}
 VARIABLE z
 Init == z = [k |-> "start"]
 \* hostile open performatives (limits below what the protocol allows) take the place of the peer's open
@@ -124,6 +126,9 @@ Hostile(h) ==
                                   ELSE <<PF("attach", 3, [name |-> "other", h |-> 5, role |-> "s", snd |-> 1, rcv |-> 0, idc |-> 0])>>
     [] h = "frameUnmappedCh" -> <<PF("flow", 9, FlowS)>>
     [] h = "beginAgain" -> <<PF("begin", 3, [rch |-> -1, noi |-> 0, iw |-> 100, ow |-> 100])>>
+    [] h = "beginChHigh" -> <<PF("begin", 300, [rch |-> -1, noi |-> 0, iw |-> 100, ow |-> 100])>>
+    [] h = "beginChMax" -> <<PF("begin", 65535, [rch |-> -1, noi |-> 0, iw |-> 100, ow |-> 100])>>
+    [] h = "beginReplyChHigh" -> <<[e |-> "ABegin", s |-> "s9", cfg |-> [noi |-> 1000, iw |-> 3, ow |-> 100]], PF("begin", 40000, [rch |-> [ref |-> "s9"], noi |-> 0, iw |-> 100, ow |-> 100])>>
     [] h = "endUnmapped" -> <<PF("end", 8, [err |-> ""])>>
     [] h = "openAgain" -> <<PF("open", 0, [mfs |-> 4096, chmax |-> 10])>>
     [] h = "xferToSender" -> <<[e |-> "PFrame", perf |-> "transfer", ch |-> 3, f |-> XferF(5, 40), msg |-> Msg(60)]>>
